@@ -765,6 +765,14 @@ func c07RunCase(c *core.Ctx, k c07Case) {
 		if m != fmt.Sprintf("ok %d", way) {
 			c.Disagree("C07/corr/selectway", fmt.Sprintf("selectSourceUserCacheWay(%v, now=%d): model %s impl %d", k.Ticks, k.Now, m, way), k)
 		}
+		if c.Gen != nil {
+			// the definition REGENERATED from the current source (loops unrolled) against the real function
+			g := strings.Fields(c.Gen.Ask("c07-selectway %d %s", k.Now, strings.Join(args, " ")))
+			c.Compared()
+			if len(g) != 3 || g[0] != "ok" || g[1] != strconv.Itoa(way) {
+				c.Disagree("C07/corr/gen-selectway", fmt.Sprintf("selectSourceUserCacheWay(%v, now=%d): regenerated definition %v impl %d", k.Ticks, k.Now, g, way), k)
+			}
+		}
 	case "age":
 		for _, t := range k.Ticks {
 			a, e := serveruser.VerifAge(k.Now, uint32(t))
@@ -772,6 +780,13 @@ func c07RunCase(c *core.Ctx, k c07Case) {
 			c.Compared()
 			if m != fmt.Sprintf("ok %d %v", a, e) {
 				c.Disagree("C07/corr/age", fmt.Sprintf("age(now=%d, then=%d): model %s impl %d %v", k.Now, uint32(t), m, a, e), k)
+			}
+			if c.Gen != nil {
+				g := c.Gen.Ask("c07-age %d %d", k.Now, uint32(t))
+				c.Compared()
+				if g != fmt.Sprintf("ok %d %v", a, e) {
+					c.Disagree("C07/corr/gen-age", fmt.Sprintf("age(now=%d, then=%d): regenerated definition %s impl %d %v", k.Now, uint32(t), g, a, e), k)
+				}
 			}
 		}
 	default:
@@ -1104,6 +1119,32 @@ func init() {
 				if c07Violated(c) {
 					break
 				}
+			}
+			// deterministic boundaries on every run: every nil pattern; expiry edge 599/600/601 in each way;
+			// ties and strict maxima of the age in each position; now at 0, at the 32-bit wrap
+			for _, now := range []uint32{0, 1, 599, 600, 601, 1200, 4294967295, 4294967294, 2147483648} {
+				for mask := 0; mask < 16; mask++ {
+					k := c07Case{Kind: "selectway", Now: now}
+					for j := 0; j < 4; j++ {
+						if mask&(1<<j) != 0 {
+							k.Ticks = append(k.Ticks, -1)
+						} else {
+							k.Ticks = append(k.Ticks, int64(now-uint32(10*j)))
+						}
+					}
+					c07RunCase(c, k)
+				}
+				for pos := 0; pos < 4; pos++ {
+					for _, d := range []uint32{0, 1, 598, 599, 600, 601, 4294967295} {
+						for _, base := range []uint32{5, 300, 599} {
+							k := c07Case{Kind: "selectway", Now: now, Ticks: []int64{int64(now - base), int64(now - base), int64(now - base), int64(now - base)}}
+							k.Ticks[pos] = int64(now - d)
+							c07RunCase(c, k)
+						}
+					}
+				}
+				c07RunCase(c, c07Case{Kind: "age", Now: now, Ticks: []int64{int64(now), int64(now - 1), int64(now - 599), int64(now - 600), int64(now - 601), int64(now - 1200), int64(now + 1), 0, 1, 4294967295}})
+				c.Hist("boundary_now", strconv.FormatUint(uint64(now), 10))
 			}
 			for i := 0; i < c.N(300, 5000); i++ {
 				k := c07Case{Kind: "selectway", Now: c.Rand.Uint32()}
